@@ -50,7 +50,8 @@ ASSUMPTIONS = [
     "Stack: at most one of push/pop/reset per clock (the wrapper uses if/elif), front() is only read while not empty",
     "delayed Fifo: exact latency of the indications is not specified; only the validity predicates are asserted, and "
     "'no loss' is checked with a drain phase of 4*(tx+rx+3)+2*N+8 clocks in which only the consumer is active",
-    "Fifo with delays used from a single context is rejected by cohdl (SyncFlag assertion) and counted as rejected",
+    "Fifo with delays used from a single context is documented to be refused (SyncFlag assertion); when cohdl accepts "
+    "such a design anyway it is checked like every other delayed Fifo (signature class delayed_one_ctx)",
     "a VHDL assertion of the component itself ('writing to full fifo', ...) that fires although the wrapper "
     "respected the precondition is reported (observable `assert`) only for the undelayed Fifo, where the asserted "
     "signal is the documented full/empty; with delays the assertion reads an internal mixed-side signal and is "
@@ -70,26 +71,32 @@ def all_cfgs():
         for e in ELEMS:
             for c in ("one", "two"):
                 out.append({"comp": "fifo", "N": n, "elem": e, "form": "none", "tx": 0, "rx": 0, "ctx": c})
-            for (t, r) in DELAYS:
-                out.append({"comp": "fifo", "N": n, "elem": e, "form": "txrx", "tx": t, "rx": r, "ctx": "two"})
+            for i, (t, r) in builtins.enumerate(DELAYS):
+                out.append({"comp": "fifo", "N": n, "elem": e, "form": "txrx", "tx": t, "rx": r, "ctx": "two",
+                            "obs": "last" if (i + n) % 2 else "first"})
             for k in (1, 2):
-                out.append({"comp": "fifo", "N": n, "elem": e, "form": "delay", "tx": k, "rx": k, "ctx": "two"})
+                out.append({"comp": "fifo", "N": n, "elem": e, "form": "delay", "tx": k, "rx": k, "ctx": "two",
+                            "obs": "last" if (k + n) % 2 else "first"})
             for m in ("NO_OVERFLOW", "DROP_OLD"):
                 out.append({"comp": "stack", "N": n, "elem": e, "mode": m})
-    for e in ELEMS:  # delays + one context: documented to be refused
+    for e in ELEMS:  # delays + one context: documented (SyncFlag assertion text) to be refused
         out.append({"comp": "fifo", "N": 3, "elem": e, "form": "txrx", "tx": 1, "rx": 0, "ctx": "one"})
         out.append({"comp": "fifo", "N": 4, "elem": e, "form": "delay", "tx": 1, "rx": 1, "ctx": "one"})
+        out.append({"comp": "fifo", "N": 3, "elem": e, "form": "txrx", "tx": 0, "rx": 1, "ctx": "one"})
+        out.append({"comp": "fifo", "N": 4, "elem": e, "form": "txrx", "tx": 0, "rx": 2, "ctx": "one"})
     return out
 
 
 def explore_cfgs(tier):
     quick = tier == "quick"
-    cap = 60000 if quick else 500000
+    cap = 60000 if quick else 300000
     out = []
 
-    def fifo(n, e, c, t=0, r=0):
-        out.append(({"comp": "fifo", "N": n, "elem": e, "form": "txrx" if (t or r) else "none", "tx": t, "rx": r,
-                     "ctx": c}, cap))
+    def fifo(n, e, c, t=0, r=0, obs="first"):
+        cfg = {"comp": "fifo", "N": n, "elem": e, "form": "txrx" if (t or r) else "none", "tx": t, "rx": r, "ctx": c}
+        if obs != "first":
+            cfg["obs"] = obs
+        out.append((cfg, cap))
 
     def stack(n, e, m):
         out.append(({"comp": "stack", "N": n, "elem": e, "mode": m}, cap))
@@ -106,6 +113,8 @@ def explore_cfgs(tier):
     for n in ([2, 3] if quick else [2, 3, 4, 5]):
         for (t, r) in (DELAYS if (n == 2 or not quick) else [(1, 0), (0, 1), (1, 1)]):
             fifo(n, "bv2", "two", t, r)
+            if n == 2 or (t, r) == (1, 1):
+                fifo(n, "bv2", "two", t, r, obs="last")
     if not quick:
         for (t, r) in [(1, 0), (1, 1)]:
             fifo(3, "rec", "two", t, r)
@@ -227,6 +236,9 @@ def _occ_class(occ, top):
 
 
 def _sig(cfg, obs, when):
+    if cfg["comp"] == "fifo" and cfg["ctx"] == "one" and cfg.get("form", "none") != "none":
+        # one root cause for the whole class: a configuration cohdl documents as refused was accepted
+        return {"comp": "Fifo", "delayed_one_ctx": True, "obs": obs}
     if cfg["comp"] == "fifo":
         return {"comp": "Fifo", "N_pow2": _is_pow2(cfg["N"]), "delay": _delay_class(cfg), "ctx": cfg["ctx"],
                 "obs": obs, "when": when}
@@ -526,7 +538,7 @@ def _explore(case, sim, out, key):
 def _cfg_name(cfg):
     if cfg["comp"] == "stack":
         return f"Stack[{cfg['elem']},{cfg['N']}]/{cfg['mode']}"
-    return f"Fifo[{cfg['elem']},{cfg['N']}]/{_delay_class(cfg)}/{cfg['ctx']}ctx"
+    return f"Fifo[{cfg['elem']},{cfg['N']}]/{_delay_class(cfg)}/{cfg['ctx']}ctx" + ("/obs_last" if cfg.get("obs") == "last" else "")
 
 
 def view(case):
